@@ -59,6 +59,27 @@ func instances(p *Probes, nestedAt map[int]bool) (ins []tryInstance, ok bool) {
 // catch variable prints; the wording of the error itself is free
 var reMarker = regexp.MustCompile(`\[[a-z]+[0-9]+\]|\[CATCH\]|<[a-z]+:`)
 
+// returnClearWorks calibrates the one thing catch form 3 relies on beyond the property: that an empty
+// if statement drops a pending return value, so that later range statements are not cut short. On a
+// tree where that is not so, form 3 is not generated (its twin comparison would not be sound).
+func returnClearWorks() bool {
+	render := func(src string) string {
+		set, _ := NewSet(map[string]string{"/cal.jet": src})
+		tm, err := set.GetTemplate("/cal.jet")
+		if err != nil {
+			return "parse-error"
+		}
+		var b strings.Builder
+		var xerr error
+		if pc := sim.Guard(func() { xerr = tm.Execute(&b, nil, nil) }); pc != nil || xerr != nil {
+			return "error"
+		}
+		return b.String()
+	}
+	with := render(`{{range i := slice("a","b")}}{{i}}{{try}}{{nosuch}}{{catch e}}{{return "rv"}}{{end}}{{if true}}{{end}}{{end}}{{range slice("c","d")}}{{.}}{{end}}|{{isset(e)}}`)
+	return with == "01cd|false" || with == "01cd|true" // the last part is the property's business, not the calibration's
+}
+
 func RunC13(env *sim.Env) {
 	t := env.Tape
 	opts := gen.SwarmOptions(t)
@@ -69,6 +90,10 @@ func RunC13(env *sim.Env) {
 	opts.CatchForm = t.Choose(3)
 	if t.Choose(4) > 0 {
 		opts.CatchForm = 2
+		if t.Choose(4) == 0 && returnClearWorks() {
+			opts.CatchForm = 3
+			env.Stat("probe:return_statement_in_catch_body", 1)
+		}
 	}
 	world := gen.GenWorld(t, opts)
 	data := gen.GenData(t, 1)
@@ -193,7 +218,7 @@ func RunC13(env *sim.Env) {
 			switch {
 			case k%4 == 3:
 				kind = 2
-			case k%4 == 1 && opts.CatchForm != 2:
+			case k%4 == 1 && opts.CatchForm < 2:
 				kind = 1
 			}
 			fc := Call{Tmpl: m, Data: data, FaultProbe: k, FaultKind: kind}
@@ -322,7 +347,7 @@ func RunC13(env *sim.Env) {
 			switch opts.CatchForm {
 			case 0, 1:
 				okMid = okMid && tail == ""
-			case 2:
+			case 2, 3:
 				inj := fmt.Sprintf("INJ-%d-", id)
 				if kind == 2 {
 					// a runtime error carries its own text
@@ -335,7 +360,7 @@ func RunC13(env *sim.Env) {
 				key := "body-leaked"
 				if strings.Count(mid, "[CATCH]") != boolInt(opts.CatchForm > 0) {
 					key = "catch-count"
-				} else if opts.CatchForm == 2 && kind != 2 && !strings.Contains(mid, fmt.Sprintf("INJ-%d-", id)) {
+				} else if opts.CatchForm >= 2 && kind != 2 && !strings.Contains(mid, fmt.Sprintf("INJ-%d-", id)) {
 					key = "catch-var"
 				}
 				env.Violate("spliced-output", key, "failure at call %d = fail(%d) (%s line %d, under %v): the try statement rendered %s; expected only the catch body (form %d) with the injected error", k, id, ps.File, ps.Line, ps.Encl, sim.Q(mid), opts.CatchForm)
